@@ -1,5 +1,6 @@
 (* Proofs/PartitionAlgo.v — the mirror of k_alternative_partition_brut_force (Model/PartitionAlgo.v).
 
+   (completeness / minimality: Proofs/PartitionComplete.v)
    MAIN RESULTS (every size, every order parameter set_order that permutes its argument)
      bf_sound          bf_algo ... = Some res -> partition_check alts votes res = true /\ length res <= k /\
                        length res <= ceil(m/2)         (votes: at least one, each a permutation of the alternatives)
@@ -11,7 +12,7 @@
    fresh, distinct and contain all new alternatives (spc_spec), extend keeps disjointness (extend_spec). *)
 From Coq Require Import List Arith NArith Bool Lia Permutation.
 From PrefVerif Require Import Lib.Val Lib.Contig Lib.SetPartitions Model.SP Model.ELPDP Model.Partition
-                              Model.PartitionAlgo Proofs.SP Proofs.ELPDP Proofs.Partition.
+                              Model.PartitionAlgo Proofs.SP Proofs.ELPDP Proofs.Partition Proofs.ELPComplete Proofs.ELPLevels.
 Import ListNotations.
 
 Definition E (l : list paxis) : list N := flat_map pa_elems l.
@@ -556,7 +557,7 @@ Proof.
   rewrite Hle, Hc, Nat.eqb_refl. reflexivity.
 Qed.
 
-(* first step of the completeness argument (the rest is not proved, see Properties/C18.v): on an axis on which a vote
+(* on an axis on which a vote
    is single-peaked, the alternative the vote ranks last is one of the two end points *)
 Lemma sp_last_is_end v O x : NoDup O -> spv v O -> In x O ->
   (forall a, In a O -> a <> x -> rk v a < rk v x) ->
@@ -576,52 +577,105 @@ Proof.
     + apply in_or_app. right. right. now left.
 Qed.
 
-(* ---------------------------------------------------------------------------------------------- *)
-(* 8. completeness: kernel-checked on small domains only (see Properties/C18.v for what is missing) *)
+(* ============================================================================================== *)
+(* 9. COMPLETENESS / MINIMALITY of the mirror (with place_complete of Proofs/ELPComplete.v)        *)
 
-Fixpoint lists_of_len {T} (univ : list T) (n : nat) : list (list T) :=
-  match n with 0 => [[]] | S n' => flat_map (fun l => map (fun x => x :: l) univ) (lists_of_len univ n') end.
+(* --- 9.1 membership in extend / spc through inductive characterisations ------------------------ *)
 
-(* every profile of exactly n votes (repetitions and every order of the votes included) over the alternatives
-   1..m, every k in 1..m+1: the mirror's answer satisfies the second sentence of the property *)
-Definition small_ok (m n : nat) : bool :=
-  let alts := map N.of_nat (seq 1 m) in
-  forallb (fun profile =>
-             let mn := min_partition alts profile in
-             forallb (fun k => brute_force_ok_with mn alts profile k (bf_algo (fun L => L) alts profile k)) (seq 1 (S m)))
-          (lists_of_len (Lib.Perms.perms alts) n).
+Section ExtRel.
+Variable votes : list (list N).
+Variable lim : nat.
 
-Lemma lists_of_len_spec {T} (univ : list T) n l :
-  In l (lists_of_len univ n) <-> length l = n /\ Forall (fun x => In x univ) l.
+Inductive ExtR : list paxis -> list paxis -> list (list N) -> list paxis -> Prop :=
+| ExtR_nil u d : ExtR u d [] (u ++ d)
+| ExtR_old u d p e res A A' :
+    In A u -> fst (place_t A p votes) = A' -> pa_eqb A' A = false ->
+    ExtR (filter (fun a => negb (pa_eqb a A)) u) (d ++ [A']) e res -> ExtR u d (p :: e) res
+| ExtR_new u d p e res A' :
+    length u + length d < lim -> fst (place_t pa_empty p votes) = A' -> pa_eqb A' pa_empty = false ->
+    ExtR u (d ++ [A']) e res -> ExtR u d (p :: e) res.
+
+Lemma ExtR_in_fold u d e res : ExtR u d e res -> forall queue, In (u, d) queue ->
+  In res (map (fun q : qstate => fst q ++ snd q) (fold_left (fun queue alt => ext_piece votes lim alt queue) e queue)).
 Proof.
-  revert l; induction n as [|n IH]; intros l; simpl.
-  - split; [intros [<-|[]]; split; [reflexivity|constructor]|]. intros [H _]. destruct l; [now left|discriminate].
-  - rewrite in_flat_map. split.
-    + intros (l' & Hl' & H). apply in_map_iff in H. destruct H as (x & <- & Hx). apply IH in Hl'. destruct Hl' as [<- HF].
-      split; [reflexivity|now constructor].
-    + intros [Hlen HF]. destruct l as [|x l']; [discriminate|]. inversion HF; subst. exists l'. split.
-      * apply IH. split; [simpl in Hlen; lia|assumption].
-      * apply in_map_iff. eauto.
+  induction 1 as [u d|u d p e res A A' HA Hpl Hne _ IH|u d p e res A' Hlen Hpl Hne _ IH]; intros queue Hq.
+  - simpl. apply in_map_iff. exists (u, d). auto.
+  - cbn [fold_left]. apply IH. unfold ext_piece. apply in_flat_map. exists (u, d). split; [assumption|].
+    apply in_or_app. left. apply in_flat_map. exists A. split; [assumption|]. rewrite Hpl, Hne. now left.
+  - cbn [fold_left]. apply IH. unfold ext_piece. apply in_flat_map. exists (u, d). split; [assumption|].
+    apply in_or_app. right. apply Nat.ltb_lt in Hlen. rewrite Hlen, Hpl, Hne. now left.
 Qed.
 
-(* what small_ok m n = true says *)
-Lemma small_ok_spec m n : small_ok m n = true ->
-  let alts := map N.of_nat (seq 1 m) in
-  forall profile, length profile = n -> Forall (fun v => Permutation alts v) profile ->
-  forall k, 1 <= k <= S m -> brute_force_ok alts profile k (bf_algo (fun L => L) alts profile k) = true.
+Lemma extend_complete axes e res : ExtR axes [] e res -> In res (extend axes e votes lim).
+Proof. intros H. unfold extend. apply (ExtR_in_fold _ _ _ _ H). now left. Qed.
+End ExtRel.
+
+Inductive Canon : list N -> list N -> list (list N) -> Prop :=
+| Canon_nil later : Canon [] later []
+| Canon_single h rest later e : Canon rest later e -> Canon (h :: rest) later ([h] :: e)
+| Canon_pair h y rest later e : In y (rest ++ later) ->
+    Canon (removeN (Some y) rest) (removeN (Some y) later) e -> Canon (h :: rest) later ([h; y] :: e).
+
+Lemma removeN_length_ge y (l : list N) : NoDup l -> length l <= S (length (removeN (Some y) l)).
 Proof.
-  intros H alts profile Hlen Hperm k Hk. unfold small_ok in H. fold alts in H. rewrite forallb_forall in H.
-  assert (Hin : In profile (lists_of_len (Lib.Perms.perms alts) n)).
-  { apply lists_of_len_spec. split; [assumption|]. eapply Forall_impl; [|exact Hperm]. intros v Hv. now apply Lib.Perms.perms_iff. }
-  specialize (H profile Hin). cbv zeta in H. rewrite forallb_forall in H. unfold brute_force_ok. apply H.
-  apply in_seq. lia.
+  induction l as [|a l IH]; intros Hnd; simpl; [lia|]. inversion Hnd as [|? ? Ha Hl]; subst.
+  destruct (N.eqb a y) eqn:Ey; simpl.
+  - apply N.eqb_eq in Ey. subst a.
+    assert (E : filter (fun i => negb (N.eqb i y)) l = l).
+    { apply filter_all_true. intros x Hx. apply negb_true_iff, N.eqb_neq. intros ->. contradiction. }
+    rewrite E. lia.
+  - specialize (IH Hl). simpl in IH. lia.
 Qed.
 
-(* vm_cast_no_check: the computation is run once, by the kernel, at Qed *)
-Lemma small_ok_4 : small_ok 4 1 = true /\ small_ok 4 2 = true /\ small_ok 4 3 = true.
-Proof. split; [|split]; vm_cast_no_check (eq_refl true). Qed.
-Lemma small_ok_3 : small_ok 1 3 = true /\ small_ok 2 3 = true /\ small_ok 3 1 = true /\ small_ok 3 2 = true /\
-                   small_ok 3 3 = true /\ small_ok 3 4 = true.
-Proof. repeat split; vm_cast_no_check (eq_refl true). Qed.
-Lemma small_ok_5 : small_ok 5 1 = true.
-Proof. vm_cast_no_check (eq_refl true). Qed.
+Lemma NoDup_removeN_app p (l1 l2 : list N) : NoDup (l1 ++ l2) -> NoDup (removeN p l1 ++ removeN p l2).
+Proof.
+  intros H. apply NoDup_app_iff in H. destruct H as (N1 & N2 & N3). apply NoDup_app_iff.
+  repeat split; [now apply removeN_NoDup|now apply removeN_NoDup|].
+  intros a Ha Hb. apply (N3 a); [now apply removeN_incl in Ha|now apply removeN_incl in Hb].
+Qed.
+
+Lemma Canon_len items later e : NoDup (items ++ later) -> Canon items later e -> length items <= 2 * length e.
+Proof.
+  intros Hnd H. induction H as [later|h rest later e _ IH|h y rest later e _ _ IH]; simpl; [lia| |].
+  - inversion Hnd; subst. specialize (IH H2). lia.
+  - inversion Hnd as [|? ? _ Hnd']; subst. specialize (IH (NoDup_removeN_app _ _ _ Hnd')).
+    pose proof (removeN_length_ge y rest (NoDup_app_l _ _ Hnd')). lia.
+Qed.
+
+Lemma spc_complete : forall fuel items later lim size e,
+  NoDup (items ++ later) -> Canon items later e -> length items <= fuel -> size + length e <= lim ->
+  In e (spc fuel items later lim size).
+Proof.
+  induction fuel as [|f IH]; intros items later lim size e Hnd Hc Hlen Hlim.
+  - destruct items; [|simpl in Hlen; lia]. inversion Hc; subst. now left.
+  - pose proof (Canon_len _ _ _ Hnd Hc) as Hl2.
+    inversion Hc as [later'|h rest later' e' Hc'|h y rest later' e' Hy Hc']; subst.
+    + now left.
+    + cbn [spc].
+      assert (G : (size + (length (h :: rest) + 1) / 2 <=? lim) = true).
+      { apply Nat.leb_le. assert ((length (h :: rest) + 1) / 2 < S (length ([h] :: e'))) by (apply Nat.div_lt_upper_bound; lia).
+        lia. }
+      rewrite G. apply in_flat_map. exists None. split; [apply in_or_app; right; now left|].
+      apply in_map. inversion Hnd; subst. apply IH; auto; simpl in *; lia.
+    + cbn [spc].
+      assert (G : (size + (length (h :: rest) + 1) / 2 <=? lim) = true).
+      { apply Nat.leb_le. assert ((length (h :: rest) + 1) / 2 < S (length ([h; y] :: e'))) by (apply Nat.div_lt_upper_bound; lia).
+        lia. }
+      rewrite G. apply in_flat_map. exists (Some y). split.
+      * apply in_app_or in Hy. apply in_or_app. destruct Hy as [Hy|Hy]; [left; now apply in_map|].
+        right. right. now apply in_map.
+      * apply in_map. inversion Hnd as [|? ? _ Hnd']; subst. apply IH.
+        -- now apply NoDup_removeN_app.
+        -- assumption.
+        -- pose proof (removeN_length (Some y) rest). simpl in Hlen. lia.
+        -- simpl in Hlim. lia.
+Qed.
+
+(* a distinguished element of a fold that establishes G, all other steps preserving G *)
+Lemma fold_left_hit {S T} (f : S -> T -> S) (G : S -> Prop) l x s0 :
+  In x l -> (forall s, G (f s x)) -> (forall s y, G s -> G (f s y)) -> G (fold_left f l s0).
+Proof.
+  revert s0. induction l as [|y l IH]; intros s0 Hx Hhit Hpres; [contradiction|]. simpl.
+  destruct Hx as [->|Hx]; [|now apply IH].
+  apply fold_left_inv; [intros z _ s' Hs'; now apply Hpres|apply Hhit].
+Qed.
